@@ -127,6 +127,11 @@ class BruteSolver(IncrementalTrackingSolver):
 
     @clear_pending_pop
     def _push(self, levels=1):
+        if self.b_counts["push"] + 1 in self.fault_plan.get("push_fails_at", ()):
+            # the back end refuses this push (nothing is pushed)
+            self.b_counts["push"] += 1
+            self._fire("push_refused")
+            raise InternalSolverError("push refused")
         self.b_counts["push"] += 1
         self.b_log.append(("push", levels))
         for _ in range(levels):
